@@ -16,6 +16,8 @@ for l in log:
         md = json.load(open(meta))
         origin = 'sub-agent r%d' % md.get('round', 1)
         what = md['mechanism'] + ' — needs: ' + md['needs_to_manifest']
+        if md.get('run_check') and md.get('run_check') != md.get('property'):
+            what += ' — aimed at %s by the agent; the seam it needs is %s\'s, which reports it' % (md['property'], md['run_check'])
     else:
         origin = 'own'
         what = name.split('-', 1)[1].replace('_', ' ')
